@@ -26,7 +26,7 @@ type c03Batch struct {
 	subset uint64
 }
 
-var c03Kinds = []string{"random-g1", "swapped-pair", "plus-minus-d", "three-way", "three-way-weighted", "plus-T3", "malformed", "bad-length", "infinity-sig", "identity-key", "identity-key-infinity-sig", "mixture", "neighbour-key"}
+var c03Kinds = []string{"random-g1", "swapped-pair", "plus-minus-d", "three-way", "three-way-weighted", "plus-T3", "malformed", "bad-length", "infinity-sig", "identity-key", "identity-key-infinity-sig", "mixture", "neighbour-key", "compensating-lengths"}
 
 // c03Build makes a batch of n valid entries and invalidates the positions in `bad` by `kind`.
 func c03Build(r *rand.Rand, n int, bad []int, kind string, h hash.Hasher, hn string) (*c03Batch, error) {
@@ -125,6 +125,23 @@ func c03Build(r *rand.Rand, n int, bad []int, kind string, h hash.Hasher, hn str
 		}
 		for ; j < len(sorted); j++ {
 			inval(sorted[j], "random-g1")
+		}
+	case "compensating-lengths":
+		// two neighbouring entries of 47 and 49 (or 0 and 96, 1 and 95) bytes whose concatenation is
+		// exactly two valid signatures: a flattened buffer re-split every 48 bytes would look valid
+		for _, i := range bad {
+			if len(b.sigs[i]) != 48 {
+				continue // already made part of a pair
+			}
+			if i+1 >= n || len(b.sigs[i+1]) != 48 {
+				inval(i, "bad-length")
+				continue
+			}
+			cat := append(append([]byte{}, b.sigs[i]...), b.sigs[i+1]...)
+			cut := []int{47, 49, 0, 96, 1, 95, 24}[r.IntN(7)]
+			b.sigs[i], b.sigs[i+1] = cat[:cut:cut], cat[cut:]
+			b.built[i+1] = false
+			b.subset |= 1 << uint((i+1)%64)
 		}
 	case "mixture":
 		base := []string{"random-g1", "plus-T3", "malformed", "bad-length", "infinity-sig", "identity-key", "neighbour-key"}
